@@ -56,6 +56,12 @@ def conflict_patterns():
         ("contiguous_vs_pins", [{"kind": "TasksContiguous", "tasks": ["t0", "t1"]},
                                 {"kind": "TaskStartAt", "task": "t0", "value": 0},
                                 {"kind": "TaskStartAt", "task": "t1", "value": 5}]),
+        ("or_vs_pin", [{"kind": "Or", "args": [{"kind": "TaskStartAt", "task": "t0", "value": 1},
+                                               {"kind": "TaskStartAt", "task": "t0", "value": 2}]},
+                       {"kind": "TaskStartAt", "task": "t0", "value": 5}]),
+        ("forced_optional_constraint", [{"kind": "TaskStartAt", "task": "t0", "value": 1, "optional": True, "_oid": "oc"},
+                                        {"kind": "ForceApplyNOptionalConstraints", "constraints": ["oc"], "n": 1, "mode": "exact"},
+                                        {"kind": "TaskStartAfter", "task": "t0", "value": 3, "mode": "lax"}]),
         ("buffer_short", [{"kind": "TaskStartAt", "task": "t0", "value": 0}, {"kind": "TaskStartAt", "task": "t1", "value": 3}]),
     ]
 
@@ -92,6 +98,12 @@ def make_spec(pattern, conflict, n_irr, rng, feasible=False):
     for c, nm in zip(user, names):
         c["id"] = nm
         c["name"] = nm
+    # optional constraints referenced by a force-apply rule: rewrite the reference to the drawn id, keep them before it
+    oid = {c.pop("_oid"): c["id"] for c in user if "_oid" in c}
+    for c in user:
+        if c["kind"] == "ForceApplyNOptionalConstraints":
+            c["constraints"] = [oid[x] for x in c["constraints"]]
+    user.sort(key=lambda c: c["kind"] == "ForceApplyNOptionalConstraints")
     spec["constraints"] = cons + user
     return spec
 
